@@ -1,10 +1,339 @@
-import Blue.Proofs.SstCur
+import Blue.Proofs.EntryCodec
 import Blue.Proofs.Block
 import Blue.Proofs.BlockCursor
 import Blue.Proofs.BlockRestarts
-/-! Property C10: the theorems the check builds and audits (spike inventory; the build phase
-    completes the list from DESIGN Appendix C.0). -/
-#print axioms Blue.Block.build_wf
-#print axioms Blue.Block.built_block_cursor_refines
-#print axioms Blue.Block.interval_zero_not_wf
-#print axioms Blue.Cursor.sst_cursor_refines
+import Blue.Proofs.BlockSeal
+import Blue.Proofs.BlockBytes
+import Blue.Proofs.SstCur
+import Blue.Proofs.SstDivide
+import Blue.Proofs.SstLoad
+import Blue.Proofs.SstCut
+import Blue.Proofs.SstMeta
+import Blue.Proofs.ConstsTieC10
+/-! # Property C10 — an SST or block returns exactly what was put in, under every cursor movement
+
+Property theorems only (helper lemmas live in `Blue/Proofs/{Wire,EntryCodec,Block,BlockRestarts,
+BlockCursor,BlockSeal,SstCur,SstDivide}.lean`).
+
+The models: `Blue/Model/{Wire,EntryCodec,Block}.lean` (entry messages, `BlockBuilder` with prefix
+compression and the restart policy by bytes and pairs), `Blue/Model/BlockSeal.lean` (the builder's
+accept/refuse decision, `seal`'s footer, `Block::new`, bytes → decoded block),
+`Blue/Model/BlockCursor.lean` (`BlockCursor` over a decoded block), `Blue/Model/SstCur.lean`
+(`SstCursor`), `Blue/Model/SstBuild.lean` (`SstBuilder`, `SstMultiBuilder`, `divide_keys`,
+`minimal_successor_key`, file layout, `Sst::{load, metadata}`).  The correspondence check compares
+them with the real crates byte-for-byte (block bytes; a table's data blocks, index block and final
+block; the packed `SstMetadata`) and observation-for-observation (cursor programs, `load`).
+
+What is a theorem here and what is held by correspondence only is said at each statement; the
+piece named `_partial` is weaker than the property's sentence and says what is missing.  The
+empty entry sequence is inside the theorems about bytes (`sealed_bytes_decode`) and about the
+table (`sst_cursor_refines` with no blocks); the model describes the *repaired* cursor of an empty
+block (D-7). -/
+namespace Blue.Props.C10
+open Blue.Wire Blue.EntryCodec Blue.Block Blue.BlockCursor Blue.Cursor Blue.Sst
+
+/-! ## constants -/
+/-- limits, message field numbers / wire types and the footer tags are the ones in the source -/
+theorem limits_from_source :
+    MAX_KEY_LEN = Blue.Generated.sstMaxKeyLen ∧ MAX_VALUE_LEN = Blue.Generated.sstMaxValueLen
+    ∧ TABLE_FULL_SIZE = Blue.Generated.sstTableFullSize :=
+  ⟨Blue.ConstsTie.sst_limits.1, Blue.ConstsTie.sst_limits.2.1, Blue.ConstsTie.sst_limits.2.2.1⟩
+
+/-! ## entries and the entry area of a block -/
+/-- a block entry (`KeyValueEntry::{Put, Del}`) round-trips through the wire format, and the
+    unpacker hands back exactly the bytes that follow it -/
+theorem decEntry_enc (e : Entry) (h : e.Wf) (rest : List Nat) :
+    decEntry (encEntry e ++ rest) = some (e, rest) := Blue.EntryCodec.decEntry_enc e h rest
+
+/-- prefix compression is undone by `truncate(shared); extend(key_frag)`, restart or not -/
+theorem rebuild_key (last key : List Nat) (restart : Bool) :
+    let shared := if restart then 0 else sharedLen last key
+    last.take shared ++ key.drop shared = key := Blue.Block.rebuild_key last key restart
+
+/-- the entry area of a built block decodes to exactly the entries that were put, for *every*
+    restart policy (any `bytes_restart_interval`, any `key_value_pairs_restart_interval`) -/
+theorem block_roundtrip (o : Opts) (es : List KV) (hwf : ∀ e ∈ es, e.Wf) :
+    decodeAll (es.length + 1) (build o es).buffer [] = some es := Blue.Block.block_roundtrip o es hwf
+
+/-! ## the builder's decision (refusals) -/
+/-- `put` / `del` accept exactly: key ≤ `MAX_KEY_LEN`, value ≤ `MAX_VALUE_LEN`, builder below
+    `TABLE_FULL_SIZE`, strictly after the last accepted entry (key ascending, timestamp
+    descending; an equal key and timestamp is refused) -/
+theorem builder_accepts_iff (approx : Nat) (lastKey : List Nat) (lastTs : Nat) (e : KV) :
+    putCheck approx lastKey lastTs e = none ↔
+      e.key.length ≤ MAX_KEY_LEN ∧ (∀ v, e.val = some v → v.length ≤ MAX_VALUE_LEN)
+      ∧ approx < TABLE_FULL_SIZE ∧ keyRefLt lastKey lastTs e.key e.ts = true :=
+  putCheck_none_iff approx lastKey lastTs e
+
+/-- whatever is attempted — out of order, duplicates, oversize — the builder ends up holding
+    exactly the accepted attempts (refused ones append nothing), and these are strictly sorted -/
+theorem builder_rejects (o : Opts) (atts : List KV) :
+    (CBuilder.putAll o CBuilder.init atts).2.b = build o (acceptedOf (CBuilder.putAll o CBuilder.init atts).1 atts)
+    ∧ Sorted (acceptedOf (CBuilder.putAll o CBuilder.init atts).1 atts) := by
+  refine ⟨putAll_builds o atts CBuilder.init, ?_⟩
+  have := putAll_sorted o atts CBuilder.init [] List.Pairwise.nil trivial (fun _ => ⟨rfl, rfl⟩)
+  simpa using this
+
+/-! ## the block cursor -/
+/-- the builder's restart points, read as entry indices, make a well-formed decoded block, for
+    every non-empty entry list and every pair of restart intervals ≥ 1 -/
+theorem build_wf (o : Opts) (ho : 1 ≤ o.bytesRestartInterval ∧ 1 ≤ o.pairsRestartInterval)
+    (es : List KV) (hne : es ≠ []) : WfBlock ⟨es, (buildG o es).ridx⟩ := Blue.Block.build_wf o ho es hne
+
+/-- NEW: the restart *offsets* in the footer are the byte offsets of the entries those indices
+    name (prefix sums of the encoded entry lengths) -/
+theorem restarts_are_entry_offsets (o : Opts) (es : List KV) :
+    (build o es).restarts = (buildG o es).ridx.map (entryOffset o es) :=
+  Blue.Block.restarts_are_entry_offsets o es
+
+/-- over a well-formed decoded block every finite program of
+    `seek_to_first / seek_to_last / next / prev / seek` (binary search over the restart points,
+    linear scan, reverse step through a restart interval) shows what the reference cursor shows -/
+theorem block_cursor_refines {E : Type} {b : DBlock E} (wf : WfBlock b) (ops : List (Op E))
+    (hops : ∀ pred, Op.seek pred ∈ ops → MonoAlong b.entries pred) :
+    BlockCursor.run ⟨b, .first⟩ ops = Ref.run ⟨b.entries, 0⟩ ops :=
+  Blue.BlockCursor.block_cursor_refines wf ops .first 0 BRel.first hops
+
+theorem built_block_cursor_refines (o : Opts) (ho : 1 ≤ o.bytesRestartInterval ∧ 1 ≤ o.pairsRestartInterval)
+    (es : List KV) (hne : es ≠ []) (ops : List (Op KV))
+    (hops : ∀ pred, Op.seek pred ∈ ops → MonoAlong es pred) :
+    BlockCursor.run ⟨⟨es, (buildG o es).ridx⟩, .first⟩ ops = Ref.run ⟨es, 0⟩ ops :=
+  Blue.Block.built_block_cursor_refines o ho es hne ops hops
+
+/-- NEW: from bytes to the decoded block: `Block::new` on the sealed bytes, the forward decode
+    and the offset → index translation give back exactly the entries and the builder's restart
+    points as entry indices — every entry list (the empty one included), every restart policy.
+    (`Fits`: the `u32` offsets of the format suffice, which `TABLE_FULL_SIZE` guarantees.) -/
+theorem sealed_bytes_decode (o : Opts) (es : List KV) (hwf : ∀ e ∈ es, e.Wf) (hfit : Fits (build o es)) :
+    ∃ blk, Blk.new (build o es).seal = .ok blk ∧ blk.toDBlock = some ⟨es, (buildG o es).ridx⟩ :=
+  toDBlock_seal o es hwf hfit
+
+/-- NEW: a block end to end at the byte level, for programs over *keys* (in a sorted block every
+    `seek(k)` is monotone, so no side condition on the program remains): sealed bytes → `Block::new`
+    → decode → cursor program = reference cursor over the entries; `seek(k)` shows the first entry
+    whose key is at least `k`. -/
+theorem sealed_block_cursor_refines (o : Opts) (ho : 1 ≤ o.bytesRestartInterval ∧ 1 ≤ o.pairsRestartInterval)
+    (es : List KV) (hne : es ≠ []) (hs : Sorted es) (hwf : ∀ e ∈ es, e.Wf) (hfit : Fits (build o es))
+    (ops : List KOp) :
+    (∃ blk d, Blk.new (build o es).seal = .ok blk ∧ blk.toDBlock = some d ∧ d.entries = es
+      ∧ BlockCursor.run ⟨d, .first⟩ (ops.map KOp.toOp) = Ref.run ⟨es, 0⟩ (ops.map KOp.toOp))
+    ∧ ∀ k pos, (Ref.seek (atOrAfter k) ⟨es, pos⟩).kv = es.find? (atOrAfter k) :=
+  ⟨Blue.Block.sealed_block_cursor_refines o ho es hne hs hwf hfit ops, fun k pos => ref_seek_first_ge es k pos⟩
+
+/-- the excluded configuration: a restart interval of 0 records offset 0 twice -/
+theorem interval_zero_not_wf :
+    let o : Opts := ⟨0, 16⟩
+    let es : List KV := [⟨[1], 1, some []⟩, ⟨[2], 1, some []⟩]
+    (build o es).restarts.take 2 = [0, 0] ∧ (buildG o es).ridx.take 2 = [0, 0] :=
+  Blue.Block.interval_zero_not_wf
+
+/-! ## the table cursor -/
+/-- over non-empty blocks with separating dividers the two-level cursor shows, for every finite
+    program, what a cursor over the concatenation of the blocks shows -/
+theorem sst_cursor_refines {E : Type} (L : List (List E)) (D : List E) (hne : ∀ blk ∈ L, blk ≠ [])
+    (ops : List (Op E)) (hops : ∀ pred, Op.seek pred ∈ ops → DivOk L D pred) :
+    SstCur.run ⟨L, D, 0, none⟩ ops = Ref.run ⟨L.flatten, 0⟩ ops :=
+  Blue.Cursor.sst_cursor_refines L D hne ops 0 none 0 SRel.first hops
+
+/-- NEW: `divide_keys` returns a key in `[lhs, rhs)` of the `KeyRef` order, for all inputs (the
+    code checks this with `assert!` at run time) -/
+theorem divide_keys_between (kl : List Nat) (tl : Nat) (kr : List Nat) (tr : Nat)
+    (h : keyRefLt kl tl kr tr = true) :
+    keyRefLt (divideKeys kl tl kr tr).1 (divideKeys kl tl kr tr).2 kl tl = false
+    ∧ keyRefLt (divideKeys kl tl kr tr).1 (divideKeys kl tl kr tr).2 kr tr = true :=
+  divideKeys_between kl tl kr tr h
+
+/-- NEW: `minimal_successor_key` is a strict successor -/
+theorem minimal_successor_gt (k : List Nat) (t : Nat) :
+    keyRefLt k t (minimalSuccessor k t).1 (minimalSuccessor k t).2 = true := minimalSuccessor_gt k t
+
+/-- NEW: `divide_keys` ⇒ `DivOk`: cut a sorted entry list into non-empty blocks anywhere; the
+    index keys `SstBuilder` computes separate the blocks, for every seek target -/
+theorem divide_keys_gives_divOk (L : List (List KV)) (hne : ∀ b ∈ L, b ≠ []) (hs : Sorted L.flatten)
+    (k : List Nat) : DivOk L (dividersOf L) (atOrAfter k) :=
+  separates_divOk (dividersOf_separates L hne hs) k
+
+/-- NEW: hence, for programs over keys and *any* cut with these dividers, no side condition
+    remains -/
+theorem cut_cursor_refines (L : List (List KV)) (hne : ∀ b ∈ L, b ≠ []) (hs : Sorted L.flatten)
+    (ops : List KOp) :
+    SstCur.run ⟨L, dividersOf L, 0, none⟩ (ops.map KOp.toOp) = Ref.run ⟨L.flatten, 0⟩ (ops.map KOp.toOp) :=
+  Blue.Sst.cut_cursor_refines L hne hs ops
+
+/-! ## point lookups -/
+/-- NEW: on a sorted table the first entry at or after `(k, ts)` — what `load` returns when its
+    key is `k` — is the newest version of `k` not newer than `ts`; otherwise `k` has no version at
+    or below `ts` -/
+theorem load_spec_is_newest {es : List KV} (hs : Sorted es) (k : List Nat) (ts : Nat) :
+    match es.find? (notBefore k ts) with
+    | some e =>
+      (e.key = k → e ∈ es ∧ e.ts ≤ ts ∧ ∀ e' ∈ es, e'.key = k → e'.ts ≤ ts → e'.ts ≤ e.ts)
+      ∧ (e.key ≠ k → ∀ e' ∈ es, e'.key = k → ¬ e'.ts ≤ ts)
+    | none => ∀ e' ∈ es, e'.key = k → ¬ e'.ts ≤ ts := first_notBefore_is_newest hs k ts
+
+/-- NEW: `Block::load` (seek, then step while before `(key, timestamp)`) over a well-formed sorted
+    block is that specification: value, tombstone or absent -/
+theorem block_load_spec {b : DBlock KV} (wf : WfBlock b) (hs : Sorted b.entries) (k : List Nat) (ts : Nat) :
+    bload b k ts = loadSpec b.entries k ts := bload_eq_spec wf hs k ts
+
+/-- NEW: `Sst::load` over non-empty blocks with separating dividers likewise (the bloom filter is
+    a parameter: modelled as having no false negatives, checked by the harness on every inserted
+    entry) -/
+theorem sst_load_spec (t : Table) (hne : ∀ blk ∈ t.blocks, blk ≠ []) (hs : Sorted t.blocks.flatten)
+    (k : List Nat) (ts : Nat) (hd : DivOk t.blocks t.dividers (atOrAfter k)) :
+    t.load k ts = loadSpec t.blocks.flatten k ts := table_load_eq_spec t hne hs k ts hd
+
+/-! ## `SstBuilder`, start to `seal` -/
+/-- NEW: feed any attempts to `SstBuilder` (refused ones change nothing); at `seal` the data
+    blocks and the index block *as written* decode (`Block::new`, forward decode) to a cut of the
+    accepted entries into non-empty blocks and to separating index entries; the accepted entries are
+    sorted; the table cursor over them shows, for every finite program over keys, what the
+    reference cursor over the accepted entries shows; `load` is the specification.
+    `_partial`: the blocks are taken from the builder's output list, not re-read from the file image
+    through the index entries' `(start, limit, crc32c)` (`Sst::load_block`); that step, the final
+    block and the packed metadata are compared byte-for-byte by the correspondence; the bloom filter
+    bytes and the setsum digest are parameters. -/
+theorem sst_builder_refines_partial (o : SstOpts) (atts : List KV) (c : CBuilder) (sf : SB)
+    (hcur : (SB.putAll o SB.init atts).2.cur = some c)
+    (hf : (SB.putAll o SB.init atts).2.flush o
+        (minimalSuccessor (SB.putAll o SB.init atts).2.lastKey (SB.putAll o SB.init atts).2.lastTs).1
+        (minimalSuccessor (SB.putAll o SB.init atts).2.lastKey (SB.putAll o SB.init atts).2.lastTs).2 = .ok sf)
+    (hwfE : ∀ e ∈ (SB.putAll o SB.init atts).2.accepted, e.Wf) (hwfD : ∀ d ∈ sf.divE, d.Wf)
+    (hfitE : ∀ es ∈ sf.cutE, Fits (build o.blk es)) (hfitD : Fits (build o.blk sf.divE)) :
+    mapOpt decodeBlock sf.blocks = some sf.cutE
+    ∧ decodeBlock sf.index.b.seal = some sf.divE
+    ∧ sf.cutE.flatten = (SB.putAll o SB.init atts).2.accepted
+    ∧ (∀ b ∈ sf.cutE, b ≠ [])
+    ∧ Sorted (SB.putAll o SB.init atts).2.accepted
+    ∧ Separates sf.cutE sf.divE
+    ∧ (∀ ops : List KOp, SstCur.run ⟨sf.cutE, sf.divE, 0, none⟩ (ops.map KOp.toOp)
+        = Ref.run ⟨(SB.putAll o SB.init atts).2.accepted, 0⟩ (ops.map KOp.toOp))
+    ∧ (∀ (fileSize : Nat) (setsum : List Nat) (smallest biggest : Nat) (k : List Nat) (ts : Nat),
+        (Table.mk sf.cutE sf.divE fileSize setsum smallest biggest).load k ts
+          = loadSpec (SB.putAll o SB.init atts).2.accepted k ts) :=
+  sst_builder_refines o atts c sf hcur hf hwfE hwfD hfitE hfitD
+
+/-- NEW: the `assert!(lhs < rhs)` inside `divide_keys` (a panic) never fires from `put` / `del`
+    (a block is flushed only for an entry that passed the sort-order check) nor from `seal` -/
+theorem divide_keys_assert_never_fires (o : SstOpts) (s : SB) (e : KV) (filter setsum : List Nat) :
+    s.put o e ≠ .error .assert ∧ s.seal o filter setsum ≠ .error .assert :=
+  ⟨put_not_assert o s e, seal_not_assert o s filter setsum⟩
+
+/-! ## metadata -/
+/-- NEW: `metadata()`'s first and last key are the keys of the first and last entry (defaults
+    `[]` / `MAX_KEY` for a table without entries) -/
+theorem metadata_keys (t : Table) (hne : ∀ b ∈ t.blocks, b ≠ []) :
+    t.metadata.firstKey = (match t.blocks.flatten.head? with | some e => e.key | none => [])
+    ∧ t.metadata.lastKey = (match t.blocks.flatten.getLast? with | some e => e.key | none => MAX_KEY) :=
+  Blue.Sst.metadata_keys t hne
+
+/-- NEW: the final block's timestamps are the smallest and biggest timestamp among the accepted
+    entries (0, 0 without entries), the filter is sized for exactly the accepted entries, and the
+    file size field is the length of the bytes written -/
+theorem metadata_exact (o : SstOpts) (atts : List KV) (hts : ∀ e ∈ atts, e.ts ≤ U64MAX)
+    (filter setsum : List Nat) (f : SstFile)
+    (h : (SB.putAll o SB.init atts).2.seal o filter setsum = .ok f) :
+    let acc := (SB.putAll o SB.init atts).2.accepted
+    (∀ e ∈ acc, f.fin.smallest ≤ e.ts ∧ e.ts ≤ f.fin.biggest)
+    ∧ (acc ≠ [] → (∃ e ∈ acc, e.ts = f.fin.smallest) ∧ ∃ e ∈ acc, e.ts = f.fin.biggest)
+    ∧ (acc = [] → f.fin.smallest = 0 ∧ f.fin.biggest = 0)
+    ∧ (SB.putAll o SB.init atts).2.count = acc.length
+    ∧ f.fileSize = f.bytes.length ∧ f.fin.setsum = setsum := by
+  have hi := minv_putAll o atts SB.init hts minv_init
+  obtain ⟨h1, h2, h3, h4⟩ := seal_timestamps hi h
+  obtain ⟨_, _, _, _, _, hss, _⟩ := seal_ok h
+  exact ⟨h1, h2, h3, h4, seal_fileSize hi h, hss⟩
+
+/-! ## the code as found -/
+/-- `SstMultiBuilder` as found: each file's builder knows only its own keys, so after a roll-over
+    an entry that sorts before the previous file's last key is written (first two conjuncts);
+    with the order kept across files it is refused (third).  File size 0 rolls over at every put. -/
+theorem multi_builder_as_found_writes_unordered :
+    let o : SstOpts := ⟨⟨16, 16⟩, 4096, 17, 0⟩
+    let r1 := MB.putAsFound o MB.init ⟨[98], 1, some []⟩
+    let r2 := MB.putAsFound o r1.2 ⟨[97], 1, some []⟩
+    r1.1 = none ∧ r2.1 = none ∧ r2.2.files.length = 2
+    ∧ (MB.put o (MB.put o MB.init ⟨[98], 1, some []⟩).2 ⟨[97], 1, some []⟩).1 = some (.put .sortOrder) := by
+  decide +kernel
+
+/-! ## non-vacuity -/
+/-- a sorted block with three versions of one key, neighbours in the last byte and a tombstone -/
+def sample : List KV :=
+  [⟨[], 7, some [1]⟩, ⟨[97], 9, some []⟩, ⟨[97], 8, none⟩, ⟨[97], 0, some [2]⟩, ⟨[97, 0], 5, none⟩, ⟨[98], 5, some [3]⟩]
+
+example : Sorted sample := by unfold Sorted sample; decide
+example : sample ≠ [] := by decide
+example : ∀ e ∈ sample, e.Wf := by
+  intro e he
+  refine ⟨?_, ?_⟩
+  · simp only [sample, List.mem_cons, List.mem_nil_iff, or_false] at he
+    rcases he with rfl | rfl | rfl | rfl | rfl | rfl <;> decide
+  · intro shared hsh
+    simp only [sample, List.mem_cons, List.mem_nil_iff, or_false] at he
+    have : shared ≤ 2 := by rcases he with rfl | rfl | rfl | rfl | rfl | rfl <;> simp at hsh <;> omega
+    have : shared = 0 ∨ shared = 1 ∨ shared = 2 := by omega
+    rcases this with rfl | rfl | rfl <;> rcases he with rfl | rfl | rfl | rfl | rfl | rfl <;>
+      (simp only [wireEntry, Entry.Wf, Put.Wf, Del.Wf, U64]; decide +kernel)
+example : Fits (build ⟨1, 1⟩ sample) := by unfold Fits; decide +kernel
+example : (1 : Nat) ≤ (⟨1, 1⟩ : Opts).bytesRestartInterval ∧ 1 ≤ (⟨1, 1⟩ : Opts).pairsRestartInterval := by decide
+/-- restart interval 1: every entry is a restart point -/
+example : (buildG ⟨1, 1⟩ sample).ridx = [0, 1, 2, 3, 4, 5] := by decide +kernel
+/-- a cut of `sample` into three blocks, one of them a single entry; the dividers -/
+example : dividersOf [sample.take 2, (sample.drop 2).take 1, sample.drop 3]
+    = [⟨[97], 9, none⟩, ⟨[97], 8, none⟩, ⟨[98], 5, none⟩] := by decide +kernel
+example : keyRefLt [97] 8 [97] 0 = true ∧ divideKeys [97] 8 [97] 0 = ([97], 8) := by decide
+/-- the first branch of `divide_keys`: a shorter key strictly between -/
+example : divideKeys [97, 1] 3 [97, 9, 9] 4 = ([97, 2], 0) := by decide
+/-- a refused attempt appends nothing (duplicate, then descending key, then an accepted one) -/
+example : (CBuilder.putAll ⟨16, 16⟩ CBuilder.init
+    [⟨[5], 3, some []⟩, ⟨[5], 3, some [1]⟩, ⟨[4], 9, none⟩, ⟨[5], 2, none⟩]).1
+    = [none, some .sortOrder, some .sortOrder, none] := by decide +kernel
+/-- `SstBuilder` with target block size 0 over `sample`: every entry gets its own block (the
+    hypotheses `hcur`, `hf` of `sst_builder_refines_partial` are met), six blocks, six dividers -/
+def sampleOpts : SstOpts := ⟨⟨1, 1⟩, 0, 17, 0⟩
+example : (match (SB.putAll sampleOpts SB.init sample).2.cur with | some _ => true | none => false) = true := by
+  decide +kernel
+example :
+    (match (SB.putAll sampleOpts SB.init sample).2.flush sampleOpts
+        (minimalSuccessor (SB.putAll sampleOpts SB.init sample).2.lastKey (SB.putAll sampleOpts SB.init sample).2.lastTs).1
+        (minimalSuccessor (SB.putAll sampleOpts SB.init sample).2.lastKey (SB.putAll sampleOpts SB.init sample).2.lastTs).2 with
+      | .ok sf => (sf.cutE.map List.length, sf.divE.map keyTs)
+      | .error _ => ([], []))
+    = ([1, 1, 1, 1, 1, 1], [([], 7), ([97], 9), ([97], 8), ([97], 0), ([97, 0], 5), ([98], 5)]) := by
+  decide +kernel
+example : ∀ e ∈ sample, e.ts ≤ U64MAX := by decide
+/-- a lookup between two versions: newest version of `[97]` at or below 8 is the tombstone at 8;
+    at or below 7 likewise; below 0 there is none — and key `[97, 1]` is absent -/
+example : loadSpec sample [97] 8 = .tombstone ∧ loadSpec sample [97] 7 = .value [2] ∧ loadSpec sample [97] 100 = .value []
+    ∧ loadSpec sample [97, 1] 100 = .absent := by decide
+/-- the builders' sentinel: the empty key at the largest timestamp cannot be an entry -/
+example : putCheck 0 [] U64MAX ⟨[], U64MAX, none⟩ = some .sortOrder := by decide
+
+end Blue.Props.C10
+
+#print axioms Blue.Props.C10.limits_from_source
+#print axioms Blue.Props.C10.decEntry_enc
+#print axioms Blue.Props.C10.rebuild_key
+#print axioms Blue.Props.C10.block_roundtrip
+#print axioms Blue.Props.C10.builder_accepts_iff
+#print axioms Blue.Props.C10.builder_rejects
+#print axioms Blue.Props.C10.build_wf
+#print axioms Blue.Props.C10.restarts_are_entry_offsets
+#print axioms Blue.Props.C10.block_cursor_refines
+#print axioms Blue.Props.C10.built_block_cursor_refines
+#print axioms Blue.Props.C10.sealed_bytes_decode
+#print axioms Blue.Props.C10.sealed_block_cursor_refines
+#print axioms Blue.Props.C10.interval_zero_not_wf
+#print axioms Blue.Props.C10.sst_cursor_refines
+#print axioms Blue.Props.C10.divide_keys_between
+#print axioms Blue.Props.C10.minimal_successor_gt
+#print axioms Blue.Props.C10.divide_keys_gives_divOk
+#print axioms Blue.Props.C10.cut_cursor_refines
+#print axioms Blue.Props.C10.load_spec_is_newest
+#print axioms Blue.Props.C10.block_load_spec
+#print axioms Blue.Props.C10.sst_load_spec
+#print axioms Blue.Props.C10.sst_builder_refines_partial
+#print axioms Blue.Props.C10.divide_keys_assert_never_fires
+#print axioms Blue.Props.C10.metadata_keys
+#print axioms Blue.Props.C10.metadata_exact
+#print axioms Blue.Props.C10.multi_builder_as_found_writes_unordered
